@@ -11,7 +11,7 @@ use crate::model::mv::num;
 use proptest::prelude::*;
 use serde::{Deserialize, Serialize};
 
-pub const RULE: &str = "generated well-scoped programs (typed generator over a prelude of numbers, strings, lists, records and closures; arithmetic, broadcasting, higher-order built-ins, do-blocks, closures, unit conversions with case-sensitive identifiers, NaN-producing terms, duplicated sub-expressions; no time_now / print) with an input record: (a) evaluated twice in-process with fresh heap and environment (fresh HashMap seeds) - identical per-statement observations (value incl. emitted function text, or error message) and final bindings; (b) after an unrelated program (the same program with its string literals case-swapped, plus fixed programs) in the same thread, and in the same heap with a fresh environment (all heap indices shifted), compared with (c) a fresh OS process (`bv eval`, 12% of cases) and the real CLI outputs (4%); (d) `[e, e]` has equal elements and equals `[t, t]` after `t = e`; (e) let-abstraction: an always-evaluated, assignment-free, non-atomic sub-expression e' (all its structurally equal occurrences) is bound to a fresh name first - same value or both fail. Non-trivial = the program succeeds and produces a heap value (list, record, string or function); for (e) e' is non-atomic; distinct by program text.";
+pub const RULE: &str = "generated well-scoped programs (typed generator over a prelude of numbers, strings, lists, records and closures; arithmetic, broadcasting, higher-order built-ins, do-blocks, closures, unit conversions with case-sensitive identifiers, NaN-producing terms, duplicated sub-expressions; no time_now / print) with an input record: (a) evaluated twice in-process with fresh heap and environment (fresh HashMap seeds) - identical per-statement observations (value incl. emitted function text, or error message) and final bindings; (b) after an unrelated program (the same program with its string literals case-swapped, plus fixed programs) in the same thread, and in the same heap with a fresh environment (all heap indices shifted), compared with (c) a fresh OS process (`bv eval`, 12% of cases) and the real CLI outputs (4%; the inputs reach the CLI by --input, by an immediate pipe, or from a slow producer that writes late and in two pieces); (d) `[e, e]` has equal elements and equals `[t, t]` after `t = e`; (e) let-abstraction: an always-evaluated, assignment-free, non-atomic sub-expression e' (all its structurally equal occurrences) is bound to a fresh name first - same value or both fail. Non-trivial = the program succeeds and produces a heap value (list, record, string or function); for (e) e' is non-atomic; distinct by program text.";
 pub const ASSUMPTIONS: &[&str] = &[
     "std offers no way to force a hash seed: seeds are sampled through fresh RandomState instances (every new HashMap) and fresh processes",
     "error messages are compared exactly between repeated runs of the same program (a, b, c) but only by status for the metamorphic relations (d, e), where binding a lambda to a name legitimately changes its display name",
@@ -339,7 +339,23 @@ impl Deterministic {
         let p = format!("{}/p.blots", dir);
         std::fs::write(&p, &script).unwrap();
         let input = format!("{{\"n\": {}}}", crate::model::json::write(&c.n_input, 0));
-        let r = run_proc(&ctx.cli_path, &["-i".into(), input, p.clone()], None, None, &Limits::default());
+        // the same inputs reach the program by flag, by an immediate pipe, or from a slow
+        // producer (late, in two pieces): the run must not depend on which
+        let r = match c.pick % 8 {
+            0 | 1 | 2 => {
+                ctx.label("cli:inputs-piped");
+                crate::engine::proc::run_paced(&ctx.cli_path, &[p.clone()], Some(input.as_bytes()), None, &Limits::default(), None)
+            }
+            3 => {
+                ctx.label("cli:inputs-piped-late");
+                crate::engine::proc::run_paced(&ctx.cli_path, &[p.clone()], Some(input.as_bytes()), None, &Limits::default(), Some((0, std::time::Duration::from_millis(450))))
+            }
+            4 => {
+                ctx.label("cli:inputs-piped-in-pieces");
+                crate::engine::proc::run_paced(&ctx.cli_path, &[p.clone()], Some(input.as_bytes()), None, &Limits::default(), Some((4, std::time::Duration::from_millis(700))))
+            }
+            _ => run_proc(&ctx.cli_path, &["-i".into(), input, p.clone()], None, None, &Limits::default()),
+        };
         let _ = std::fs::remove_dir_all(&dir);
         let r = match r {
             Ok(r) => r,
